@@ -26,7 +26,7 @@ func init() {
 		Phases: func(tier string, seed int64) []Phase {
 			return []Phase{{Name: "cycles", Run: c09Run}, {Name: "cycles-tls-listener", Run: c09Run, Arg: "tls"}}
 		},
-		MinObserved: []string{"requests_tagged", "reconnects_after_close", "onclose_ids_matched", "accept_failure_episodes", "starttls_upgraded_connections", "short_lived_connections", "router_replaced_while_serving", "connection_ids_read_again_after_the_client_left", "other_servers_started_in_the_same_process", "unbind_handler_ids_matched", "connections_used_after_a_panic_on_their_read_loop", "accept_outages_that_lasted_for_seconds"},
+		MinObserved: []string{"requests_tagged", "requests_tagged_that_carry_message_id_zero", "further_run_calls_with_a_malformed_address_on_the_running_server", "reconnects_after_close", "onclose_ids_matched", "accept_failure_episodes", "starttls_upgraded_connections", "short_lived_connections", "router_replaced_while_serving", "connection_ids_read_again_after_the_client_left", "other_servers_started_in_the_same_process", "unbind_handler_ids_matched", "connections_used_after_a_panic_on_their_read_loop", "accept_outages_that_lasted_for_seconds"},
 	})
 }
 
@@ -177,7 +177,12 @@ func c09Run(c *Ctx) {
 					default:
 						op = sber.DelRequest([]byte(tag))
 					}
-					kc.Send(sber.Message(int64(i+1), op, nil).Encode())
+					mid := int64(i + 1)
+					if r.Chance(12) {
+						mid = 0 // (a client may number a request 0; it is a request of this connection like any other)
+						c.Count("requests_tagged_that_carry_message_id_zero", 1)
+					}
+					kc.Send(sber.Message(mid, op, nil).Encode())
 					if r.Chance(50) { // sometimes wait for the answer, sometimes pipeline
 						if _, err := kc.ReadMsg(patience); err != nil {
 							c.Inconclusive("read: " + err.Error())
@@ -495,6 +500,19 @@ func c09Run(c *Ctx) {
 		}
 		ta, tb := fmt.Sprintf("tag=emfile-%d-a", ep), fmt.Sprintf("tag=emfile-%d-b", ep)
 		a := mkTagged(ta)
+		if ep%2 == 0 {
+			// somebody calls Run once more on the running server with an address that lacks a port: that call fails, and
+			// the numbering of the running server's connections is none of its business
+			ret := make(chan error, 1)
+			bad := []string{"127.0.0.1", "not an address", "localhost"}[(ep/2)%3]
+			go func() { ret <- srv.S.Run(bad) }()
+			select {
+			case <-ret:
+				c.Count("further_run_calls_with_a_malformed_address_on_the_running_server", 1)
+			case <-time.After(patience):
+				c.Inconclusive(fmt.Sprintf("Run(%q) on a running server did not return", bad))
+			}
+		}
 		// the first episode is an outage that lasts for seconds, the others are blips
 		hold := 40 * time.Millisecond
 		if ep == 0 {
